@@ -14,14 +14,19 @@ def gen_case(rng, i):
     nrec = int(rng.integers(1, 4)) if not default_n else int(rng.integers(1, 3))
     dt = float(rng.choice(pg.DTS))
     nmax = 40 if default_n else 200
-    recs = [pg.gen_record(rng, n=int(rng.integers(16, nmax)), dt=dt, deg=float(rng.choice([0.0, 0.0, 30.0, 215.0]))) for _ in range(nrec)]
+    dts = [dt] * nrec
+    if nrec >= 2 and fam in ("trad", "saz", "rot", "az") and rng.random() < 0.35:    # windows with different time steps in one call
+        dts = [float(rng.choice(pg.DTS)) for _ in range(nrec)]
+    recs = [pg.gen_record(rng, n=int(rng.integers(16, nmax)), dt=d, deg=float(rng.choice([0.0, 0.0, 30.0, 215.0]))) for d in dts]
     max_n = max(len(r["vt"]) for r in recs)
     fft = (None if rng.random() < 0.5 else dict(n=int(max_n + rng.integers(0, 40)))) if default_n else dict(n=None)
     if fam == "az" and rng.random() < 0.5:
         fft = dict(n=None)
     nfft = pg.predicted_nfft(fft, max_n)
     op = pg.OPS[int(rng.integers(0, 7))] if not default_n else str(rng.choice(["konno_and_ohmachi", "parzen", "log_triangular", "linear_rectangular"]))
-    sm = pg.gen_smoothing(rng, nfft, [dt], op=op, nfc=(6 if default_n else None))
+    if len(set(dts)) > 1 and op == "savitzky_and_golay":
+        op = "konno_and_ohmachi"
+    sm = pg.gen_smoothing(rng, nfft, dts, op=op, nfc=(6 if default_n else None))
     if sm is None:
         return None
     case = dict(family=fam, smoothing=sm, width=float(rng.choice(pg.WIDTHS)), fft=fft, policy=pg.POLICIES[0], records=recs)
